@@ -7,7 +7,8 @@
    Validation follows the specification on *parsed* documents: for an object with a repeated key the
    last occurrence counts (what every validator working on a parsed map sees); "integer" accepts an
    integral float (1.0), as the specification says.
-   $ref makes the recursion non-structural: explicit fuel, [None] = out of fuel. *)
+   $ref makes the recursion non-structural: explicit fuel, [None] = out of fuel; conjunctions and
+   anyOf are three-valued (strong Kleene): a definite verdict of one operand decides. *)
 From VV.SERDE Require Export Json.
 
 Inductive jtype := TyNull | TyBoolean | TyInteger | TyNumber | TyString | TyArray | TyObject.
@@ -187,15 +188,32 @@ Definition ge_min (m : Z) (j : json) : bool :=
   | _ => true
   end.
 
+(* three-valued (strong Kleene) connectives: a definite `false` conjunct / `true` disjunct decides,
+   whatever the other operand is (None = out of fuel).  The second operand is inspected first so that a
+   verdict found late in a list does not depend on the evaluation of earlier elements. *)
 Definition and_o (a b : option bool) : option bool :=
-  match a, b with
-  | Some true, x => x
-  | Some false, Some _ => Some false
-  | Some false, None => None
-  | None, _ => None
+  match b with
+  | Some false => Some false
+  | _ => match a with
+         | Some false => Some false
+         | Some true => b
+         | None => None
+         end
+  end.
+Definition or_o (a b : option bool) : option bool :=
+  match b with
+  | Some true => Some true
+  | _ => match a with
+         | Some true => Some true
+         | Some false => b
+         | None => None
+         end
   end.
 Fixpoint all_o {A} (f : A -> option bool) (l : list A) : option bool :=
   match l with [] => Some true | x :: r => and_o (f x) (all_o f r) end.
+Fixpoint any_o {A} (f : A -> option bool) (l : list A) : option bool :=
+  match l with [] => Some false | x :: r => or_o (f x) (any_o f r) end.
+(* oneOf needs every alternative's verdict *)
 Fixpoint count_o {A} (f : A -> option bool) (l : list A) : option nat :=
   match l with
   | [] => Some O
@@ -236,8 +254,7 @@ Fixpoint valid_f (fuel : nat) (ds : defs) (s : jschema) (j : json) {struct fuel}
                  end)
          (and_o (match anyof with
                  | None => Some true
-                 | Some l => match count_o (fun a => valid_f f ds a j) l with
-                             | Some n => Some (Nat.ltb 0 n) | None => None end
+                 | Some l => any_o (fun a => valid_f f ds a j) l
                  end)
          (and_o (match oneof with
                  | None => Some true
